@@ -719,4 +719,118 @@ theorem decPrecs_ok {Sym : Type} :
       simp only [decPrecs] at hP
       exact ih (withP c q) hrest P hP
 
+/-- per-symbol-precision version of `quantiles_flip` -/
+theorem quantilesV_flip {c : Cfg} (Ps : List Nat) (hPs : ∀ P ∈ Ps, 1 ≤ P ∧ P ≤ c.W)
+    {hc hc' k : Nat} {comp comp' : List Nat}
+    (hlo : 2^k ≤ hc) (hhi : hc < 2^(k + 1)) (hW : hc < 2^c.W) (hw : Words c.W comp)
+    (hlo' : 2^k ≤ hc') (hhi' : hc' < 2^(k + 1)) (hW' : hc' < 2^c.W) (hw' : Words c.W comp')
+    (hlen : comp.length = comp'.length) (j : Nat)
+    (hsame : ∀ q, q ∉ ((chunkPosV c.W Ps (headPos k) 0 comp.length)[j]?).getD [] →
+      bitOf hc comp q = bitOf hc' comp' q) :
+    quantilesV c Ps hc comp = (chunkPosV c.W Ps (headPos k) 0 comp.length).map (valOf (bitOf hc comp)) ∧
+    quantilesV c Ps hc' comp' = (chunkPosV c.W Ps (headPos k) 0 comp.length).map (valOf (bitOf hc' comp')) ∧
+    ∀ i : Nat, i ≠ j → (quantilesV c Ps hc comp)[i]? = (quantilesV c Ps hc' comp')[i]? := by
+  have hval : ∀ (h : Nat) (cp : List Nat), 2^k ≤ h → h < 2^(k+1) →
+      h = 2^(headPos k).length + valOf (bitOf h cp) (headPos k) := by
+    intro h cp h1 h2
+    have hf : ∀ b, bitOf h cp (.head b) = h / 2^b % 2 := fun b => rfl
+    rw [headPos, seg_length, valOf_seg hf 0 k]
+    simp only [Nat.pow_zero, Nat.div_one]
+    rw [Nat.pow_succ] at h2
+    have := Nat.div_add_mod h (2^k)
+    have hd : h / 2^k = 1 := by
+      apply Nat.div_eq_of_lt_le
+      · rw [Nat.one_mul]; exact h1
+      · omega
+    rw [hd] at this
+    omega
+  have e1 := quantilesV_eq_chunks hc comp hw Ps (headPos k) 0 hc hPs (hval hc comp hlo hhi) hW
+  have e2 := quantilesV_eq_chunks hc' comp' hw' Ps (headPos k) 0 hc' hPs (hval hc' comp' hlo' hhi') hW'
+  simp only [List.drop_zero, Nat.sub_zero] at e1 e2
+  rw [← hlen] at e2
+  refine ⟨e1, e2, ?_⟩
+  intro i hij
+  rw [e1, e2]
+  simp only [List.getElem?_map]
+  cases hch : (chunkPosV c.W Ps (headPos k) 0 comp.length)[i]? with
+  | none => rfl
+  | some a =>
+    simp only [Option.map_some]
+    congr 1
+    apply valOf_congr
+    intro q hq
+    apply hsame
+    have hPs' : ∀ P ∈ Ps, P ≤ c.W := fun P h => (hPs P h).2
+    cases hcj : (chunkPosV c.W Ps (headPos k) 0 comp.length)[j]? with
+    | none => simp
+    | some b =>
+      simp only [Option.getD_some]
+      exact chunkPosV_disjoint hPs' (headPos_ok k 0).1 (headPos_ok k 0).2 hij hch hcj q hq
+
+/-- **Locality for schedules, including runs that stop early.**  With `r = runDecE c steps x`
+    (log of the steps done, error of the first failing step), `qs` the chunks for the
+    per-symbol precisions and `full = zipWith (m.dec q).1 qs models`:
+    the symbols decoded are a prefix of `full`; a decode step can only fail with
+    `OutOfCompressedData`, and it does so exactly when the chunks have run out
+    (`#symbols = qs.length`); a precision change can only fail with `OutOfRemainders`;
+    a completed run decodes all of `full`. -/
+theorem locality_scheduleE {Sym : Type} :
+    ∀ (steps : List (Step Sym)) (c : Cfg) (x : Coder),
+      PrecOk c.W c.S c.P → StepsOk c steps → Inv c x →
+      logSyms (runDecE c steps x).1 =
+        (List.zipWith (fun q m => (m.dec q).1)
+          (quantilesV c (decPrecs c.P steps) x.heads.compressed x.compressed) (decModels steps)).take
+          (logSyms (runDecE c steps x).1).length ∧
+      (∀ e, (runDecE c steps x).2.2.2 = some (.inl e) → e = .outOfData ∧
+        (logSyms (runDecE c steps x).1).length =
+          (quantilesV c (decPrecs c.P steps) x.heads.compressed x.compressed).length ∧
+        (quantilesV c (decPrecs c.P steps) x.heads.compressed x.compressed).length
+          < (decModels steps).length) ∧
+      (∀ e, (runDecE c steps x).2.2.2 = some (.inr e) → e = .outOfRemainders) ∧
+      ((runDecE c steps x).2.2.2 = none →
+        (quantilesV c (decPrecs c.P steps) x.heads.compressed x.compressed).length
+          = (decModels steps).length ∧
+        (logSyms (runDecE c steps x).1).length = (decModels steps).length) := by
+  intro steps
+  induction steps with
+  | nil =>
+    intro c x _ _ _
+    simp [runDecE, logSyms, decPrecs, decModels, quantilesV]
+  | cons st rest ih =>
+    intro c x hP hok hx
+    cases st with
+    | dec B m =>
+      obtain ⟨hv, hm, hrest⟩ := hok
+      rcases decode_spec hv hm (inv_withB.mpr hx) with ⟨herr, _, _, htk⟩ | ⟨s, y1, word, hdec, hy1, htk, hs, _⟩
+      · have htk2 : takeChunk (withP c c.P) x.heads.compressed x.compressed = .error .outOfData := by
+          rw [← htk]; exact takeChunk_congr rfl rfl _ _
+        simp [runDecE, herr, logSyms, decPrecs, decModels, quantilesV, htk2]
+      · obtain ⟨ih1, ih2, ih3, ih4⟩ := ih c y1 hP hrest (inv_withB.mp hy1)
+        have hword : word < 2^c.W := by
+          rcases takeChunk_ok hv hx.1.1 hx.1.2.1 hx.2.1 with ⟨he, _⟩ | ⟨w', a', b', htk', _, _, hw', _⟩
+          · rw [he] at htk; cases htk
+          · rw [htk'] at htk; cases htk; exact hw'
+        have hq : quantileOf (withB c B) word = rawQ c.W c.P word := (quantileOf_lt hv hword).2
+        have htk2 : takeChunk (withP c c.P) x.heads.compressed x.compressed
+            = .ok (word, y1.heads.compressed, y1.compressed) := by
+          rw [← htk]; exact takeChunk_congr rfl rfl _ _
+        simp only [runDecE, hdec, logSyms, decPrecs, decModels, quantilesV, htk2,
+          List.zipWith_cons_cons, List.length_cons, List.take_succ_cons]
+        refine ⟨?_, ?_, ih3, ?_⟩
+        · rw [← ih1, hs, hq]
+        · intro e he
+          obtain ⟨h1, h2, h3⟩ := ih2 e he
+          exact ⟨h1, by omega, by omega⟩
+        · intro he
+          obtain ⟨h1, h2⟩ := ih4 he
+          exact ⟨by omega, by omega⟩
+    | prec q =>
+      obtain ⟨hq, hrest⟩ := hok
+      rcases changePrecision_spec hP hq hx with ⟨herr, _⟩ | ⟨y1, hcp, hy1, hcomp, hhead, _⟩
+      · simp [runDecE, herr, logSyms]
+      · obtain ⟨ih1, ih2, ih3, ih4⟩ := ih (withP c q) y1 hq hrest hy1
+        simp only [withP_P, quantilesV_withP, hcomp, hhead] at ih1 ih2 ih3 ih4
+        simp only [runDecE, hcp, logSyms, decPrecs, decModels]
+        exact ⟨ih1, ih2, ih3, ih4⟩
+
 end CV.Chain
